@@ -2,6 +2,8 @@ import NotationCore.Model.Conc
 /-! Invariant of the fork/join skeleton and its preservation by every atomic action. -/
 namespace NotationCore.Conc
 
+variable {α : Type}
+
 /-! ### finite sums over `0 … n-1` -/
 
 def sum (g : Nat → Nat) : Nat → Nat
@@ -69,7 +71,7 @@ theorem sum_ge (g : Nat → Nat) (n i : Nat) (hi : i < n) : g i ≤ sum g n := b
 
 /-! ### the invariant -/
 
-def active : TPc → Bool
+def active : TPc α → Bool
   | .ready => true
   | .haveVal _ => true
   | .panicking _ => true
@@ -77,17 +79,17 @@ def active : TPc → Bool
   | _ => false
 
 /-- body and recover-defer are over -/
-def past : TPc → Bool
+def past : TPc α → Bool
   | .epilogue => true
   | .finished => true
   | _ => false
 
-def isPanic : Res → Bool
+def isPanic : Res α → Bool
   | .panic _ => true
   | .val _ => false
 
-def act (s : State) (i : Nat) : Nat := if active (s.tasks i) then 1 else 0
-def sent (e : Env) (s : State) (i : Nat) : Nat := if past (s.tasks i) && isPanic (e.f i) then 1 else 0
+def act (s : State α) (i : Nat) : Nat := if active (s.tasks i) then 1 else 0
+def sent (e : Env α) (s : State α) (i : Nat) : Nat := if past (s.tasks i) && isPanic (e.f i) then 1 else 0
 
 def mainTerminal : MPc → Bool
   | .returned => true
@@ -106,11 +108,11 @@ def afterStoreLast : MPc → Bool
   | m => afterWait m
 
 /-- number of goroutines started so far -/
-def spawned (e : Env) : MPc → Nat
+def spawned (e : Env α) : MPc → Nat
   | .spawning k => k
   | _ => e.m
 
-structure Inv (e : Env) (s : State) : Prop where
+structure Inv (e : Env α) (s : State α) : Prop where
   notCrashed : s.crashed = false
   wgCount : s.wg = sum (act s) e.m
   spawnLe : spawned e s.main ≤ e.m
@@ -120,7 +122,7 @@ structure Inv (e : Env) (s : State) : Prop where
   panicOk : ∀ i p, s.tasks i = .panicking p → e.f i = .panic p
   slotPast : ∀ i, i < e.m → past (s.tasks i) = true → s.slots i = (match e.f i with | .val r => some r | .panic _ => none)
   slotEarly : ∀ i, i < e.m → past (s.tasks i) = false → s.slots i = none
-  slotLast : s.slots e.m = if afterStoreLast s.main then some rootMark else none
+  slotLast : s.slots e.m = if afterStoreLast s.main then some e.root else none
   chanMem : mainTerminal s.main = false → ∀ p, p ∈ s.chan ↔ ∃ i, i < e.m ∧ past (s.tasks i) = true ∧ e.f i = .panic p
   chanLen : mainTerminal s.main = false → s.chan.length = sum (sent e s) e.m
   closedIff : s.closed = mainTerminal s.main
@@ -128,10 +130,10 @@ structure Inv (e : Env) (s : State) : Prop where
   retOk : s.main = .returned → ∀ i, i < e.m → isPanic (e.f i) = false
   repanOk : ∀ p, s.main = .repanicked p → ∃ i, i < e.m ∧ e.f i = .panic p
 
-theorem inv_init (e : Env) : Inv e init := by
+theorem inv_init (e : Env α) : Inv e (init : State α) := by
   refine ⟨rfl, ?_, ?_, ?_, ?_, ?_, ?_, ?_, ?_, ?_, ?_, ?_, rfl, ?_, ?_, ?_⟩
-  · show 0 = sum (act init) e.m
-    have : sum (act init) e.m = sum (fun _ => 0) e.m := sum_congr _ _ _ (fun j _ => rfl)
+  · show 0 = sum (act (init : State α)) e.m
+    have : sum (act (init : State α)) e.m = sum (fun _ => 0) e.m := sum_congr _ _ _ (fun j _ => rfl)
     rw [this]
     clear this
     induction e.m with
@@ -147,8 +149,8 @@ theorem inv_init (e : Env) : Inv e init := by
   · simp [init, afterStoreLast, afterWait]
   · intro _ p; simp [init, past]
   · intro _
-    show 0 = sum (sent e init) e.m
-    have : sum (sent e init) e.m = sum (fun _ => 0) e.m := sum_congr _ _ _ (fun j _ => by simp [sent, init, past])
+    show 0 = sum (sent e (init : State α)) e.m
+    have : sum (sent e (init : State α)) e.m = sum (fun _ => 0) e.m := sum_congr _ _ _ (fun j _ => by simp [sent, init, past])
     rw [this]
     clear this
     induction e.m with
@@ -159,23 +161,23 @@ theorem inv_init (e : Env) : Inv e init := by
   · intro p h; simp [init] at h
 
 /-- a task whose state changes only at index `i` -/
-theorem act_setTask_ne (s : State) (i j : Nat) (pc : TPc) (h : j ≠ i) : act (setTask s i pc) j = act s j := by
+theorem act_setTask_ne (s : State α) (i j : Nat) (pc : TPc α) (h : j ≠ i) : act (setTask s i pc) j = act s j := by
   simp [act, setTask, h]
 
-theorem sent_setTask_ne (e : Env) (s : State) (i j : Nat) (pc : TPc) (h : j ≠ i) : sent e (setTask s i pc) j = sent e s j := by
+theorem sent_setTask_ne (e : Env α) (s : State α) (i j : Nat) (pc : TPc α) (h : j ≠ i) : sent e (setTask s i pc) j = sent e s j := by
   simp [sent, setTask, h]
 
-def panicOf : Res → Option Nat
+def panicOf : Res α → Option Nat
   | .panic p => some p
   | .val _ => none
 
-def slotOf (e : Env) (i : Nat) : Option Nat :=
+def slotOf (e : Env α) (i : Nat) : Option α :=
   match e.f i with
   | .val r => some r
   | .panic _ => none
 
 /-- a step of goroutine `i` that moves it from a live state to `pc'` -/
-theorem inv_task (e : Env) (s : State) (i : Nat) (pc' : TPc) (slots' : Nat → Option Nat) (chan' : List Nat) (wg' : Nat)
+theorem inv_task (e : Env α) (s : State α) (i : Nat) (pc' : TPc α) (slots' : Nat → Option α) (chan' : List Nat) (wg' : Nat)
     (h : Inv e s) (hi : i < e.m)
     (hlive : s.tasks i ≠ .unborn) (hnotfin : s.tasks i ≠ .finished) (hnew : pc' ≠ .unborn)
     (hwg : wg' + (if active (s.tasks i) then 1 else 0) = s.wg + (if active pc' then 1 else 0))
@@ -277,7 +279,7 @@ theorem inv_task (e : Env) (s : State) (i : Nat) (pc' : TPc) (slots' : Nat → O
     have : s.main = .repanicked p := hr
     rw [this] at hnaw; simp [afterWait] at hnaw
 
-theorem inv_spawn (e : Env) (s : State) (k : Nat) (h : Inv e s) (hm : s.main = .spawning k) (hk : k < e.m) :
+theorem inv_spawn (e : Env α) (s : State α) (k : Nat) (h : Inv e s) (hm : s.main = .spawning k) (hk : k < e.m) :
     Inv e { (setTask s k .ready) with wg := s.wg + 1, main := .spawning (k + 1) } := by
   have hsp : spawned e s.main = k := by rw [hm]; rfl
   have hunb : s.tasks k = .unborn := h.unborn k (by rw [hsp]; omega)
@@ -350,10 +352,10 @@ theorem inv_spawn (e : Env) (s : State) (k : Nat) (h : Inv e s) (hm : s.main = .
   · intro p hh; simp at hh
 
 /-- a step of the main goroutine that leaves the tasks, the channel and the counter alone -/
-theorem inv_main (e : Env) (s : State) (main' : MPc) (slots' : Nat → Option Nat) (h : Inv e s)
+theorem inv_main (e : Env α) (s : State α) (main' : MPc) (slots' : Nat → Option α) (h : Inv e s)
     (hsp : spawned e main' = spawned e s.main)
     (hslots : ∀ j, j < e.m → slots' j = s.slots j)
-    (hlast : slots' e.m = if afterStoreLast main' then some rootMark else none)
+    (hlast : slots' e.m = if afterStoreLast main' then some e.root else none)
     (hterm : mainTerminal main' = false) (hterm0 : mainTerminal s.main = false)
     (hdone : afterWait main' = true → ∀ i, i < e.m → s.tasks i = .finished) :
     Inv e { s with main := main', slots := slots' } := by
@@ -379,11 +381,11 @@ theorem inv_main (e : Env) (s : State) (main' : MPc) (slots' : Nat → Option Na
     have : main' = .repanicked p := hr
     rw [this] at hterm; cases hterm
 
-theorem finished_of (pc : TPc) (h1 : active pc = false) (h2 : pc ≠ .unborn) : pc = .finished := by
+theorem finished_of (pc : TPc α) (h1 : active pc = false) (h2 : pc ≠ .unborn) : pc = .finished := by
   cases pc <;> simp_all [active]
 
 /-- the invariant is preserved by every enabled atomic action of every thread -/
-theorem inv_step (e : Env) (s s' : State) (t : Tid) (h : Inv e s) (hs : step e s t = some s') : Inv e s' := by
+theorem inv_step (e : Env α) (s s' : State α) (t : Tid) (h : Inv e s) (hs : step e s t = some s') : Inv e s' := by
   cases t with
   | main =>
     simp only [step] at hs
@@ -408,7 +410,7 @@ theorem inv_step (e : Env) (s s' : State) (t : Tid) (h : Inv e s) (hs : step e s
       rw [hm] at hs
       simp only [Option.some.injEq] at hs
       subst hs
-      have := inv_main e s .waiting (fun j => if j = e.m then some rootMark else s.slots j) h (by rw [hm]; rfl)
+      have := inv_main e s .waiting (fun j => if j = e.m then some e.root else s.slots j) h (by rw [hm]; rfl)
         (fun j hj => by simp [Nat.ne_of_lt hj]) (by simp [afterStoreLast]) rfl (by rw [hm]; rfl) (by intro hh; simp [afterWait] at hh)
       exact this
     | waiting =>
@@ -566,7 +568,7 @@ theorem inv_step (e : Env) (s s' : State) (t : Tid) (h : Inv e s) (hs : step e s
           (by intro q; rw [ht]; simp [past]) (by rw [ht]; simp [past])
     · simp [hi] at hs
 
-theorem inv_reachable (e : Env) (s : State) (h : Reachable e s) : Inv e s := by
+theorem inv_reachable (e : Env α) (s : State α) (h : Reachable e s) : Inv e s := by
   induction h with
   | init => exact inv_init e
   | step s s' t _ hs ih => exact inv_step e s s' t ih hs
